@@ -1,8 +1,8 @@
 (* C11 - the property theorems, nothing else.  Model: Route/RtModel.v (one relay step) and Route/RtNet.v
    (the network of endpoints, all delivery orders and all iteration orders). *)
 From Coq Require Import List Arith Bool PeanoNat.
-From Icv Require Import Route.RtModel Route.RtProofs Route.RtObs Route.RtOracleProofs
-     Route.RtNet Route.RtFamilies Route.RtNetProofs.
+From Icv Require Import Route.RtModel Route.RtProofs Route.RtObs Route.RtOracleProofs Route.RtStepLemmas Route.RtLoad
+     Route.RtNet Route.RtFamilies Route.RtSched Route.RtNetSound Route.RtNetProofs.
 Import ListNotations.
 
 (* ---- one relay step: ALL zone configurations, views, origins, iteration orders (unbounded) ---- *)
@@ -62,50 +62,116 @@ Theorem C11_oracle_accepts_model : forall c me lz conn o ord target log,
 Proof. exact rt_oracle_accepts. Qed.
 Print Assumptions C11_oracle_accepts_model.
 
-(* ---- the network: every delivery order, every iteration order (bounded families, kernel-evaluated) ---- *)
-(* rt_run_ok c links target s final = true: in EVERY run of the event originating at endpoint s - whichever
-   in-flight message is delivered next, whichever order each node iterates its endpoint sets in - the run
-   ends after at most 2*|endpoints|+2 deliveries (finitely many transmissions), no endpoint receives the
-   event after having processed it, and the set of endpoints that processed it satisfies [final]. *)
+(* ---- Zone::OnAllConfigLoaded: the ancestor chain the relay iterates, for every activation order ---- *)
+Theorem C11_ancestor_chain : forall c order,
+  rt_forest c -> (forall z, In z order -> z < length c) ->
+  (forall z, length (rt_all_parents c z) <= 32) ->
+  (forall z q, rt_parent c z = Some q -> rt_global c q = false) ->
+  rt_load c order = Some (map (fun z => (z, (rt_parent c z, rt_all_parents c z))) order).
+Proof. exact rt_load_any_order. Qed.
+Print Assumptions C11_ancestor_chain.
 
-(* chains of 1..3 zones with 1-2 endpoints each (by C11_reduction all that matters for a non-global target),
-   every target zone, every set of links between directly related endpoints, every originating endpoint *)
-Theorem C11_finite_once : forall c links target s,
+(* rt_all_parents (fuel = number of zones) IS the ancestor chain of every acyclic forest *)
+Theorem C11_all_parents_is_chain : forall c z l,
+  rt_forest c -> z < length c -> rt_is_chain c (rt_parent c z) l -> rt_all_parents c z = l.
+Proof. exact rt_all_parents_chain. Qed.
+Print Assumptions C11_all_parents_is_chain.
+
+(* ---- unbounded step lemmas of the measure argument (the global induction is not closed, see notes) ---- *)
+Theorem C11_step_nonmaster : forall c me lz conn o ord target log e,
+  rt_master c lz me conn <> me ->
+  In e (rt_sends (rt_relay c me lz conn o ord target log)) -> e = rt_master c lz me conn.
+Proof. exact rt_nonmaster_sends_only_master. Qed.
+Print Assumptions C11_step_nonmaster.
+
+Theorem C11_step_terminal : forall c me lz conn o ord target log,
+  rt_master c lz me conn <> me -> rt_ofrom o = Some (rt_master c lz me conn) ->
+  rt_sends (rt_relay c me lz conn o ord target log) = [].
+Proof. exact rt_peer_of_master_terminal. Qed.
+Print Assumptions C11_step_terminal.
+
+(* ---- the network as a small-step relation ----
+   State = (in-flight messages, endpoints that processed the event).  rt_sched_step rt_msg (rt_effect c links target nord):
+   ANY in-flight message is delivered next; the receiver builds the origin (rt_recv_origin), applies the handlers'
+   CanAccessObject test (rt_accepts), processes and re-relays with rt_relay, iterating its endpoint sets in its own
+   order nord t.  nord is arbitrary per node (rt_nord_ok: permutations of the zones' endpoints).
+   The partial-order reduction behind the sweeps: deliveries commute, so the verdict of one schedule is the verdict
+   of all (for every effect function and every membership-invariant final condition): *)
+Theorem C11_schedules_commute : forall (M : Type) (effect : M -> option (list M * list nat)) (final : list nat -> bool),
+  (forall P P', (forall x, In x P <-> In x P') -> final P = final P') ->
+  forall n l P, rt_run1 M effect final n l P = true <-> rt_good M effect final n (l, P).
+Proof. intros M effect final H n l P. split; [apply rt_run1_good; assumption | apply rt_good_run1]. Qed.
+Print Assumptions C11_schedules_commute.
+
+(* the exploration evaluated by the sweeps covers every admissible per-node iteration order *)
+Theorem C11_explore_sound : forall c links target final nord,
+  rt_small c -> rt_nord_ok c nord ->
+  forall fuel l P, rt_explore fuel c links target final l P = true ->
+  rt_run1 rt_msg (rt_effect c links target nord) final fuel l P = true.
+Proof. exact rt_explore_run1. Qed.
+Print Assumptions C11_explore_sound.
+
+(* chains of 1..3 zones with 1-2 endpoints each (by C11_reduction all that matters for a non-global target), every
+   target zone, every set of links between directly related endpoints, every originating endpoint, every per-node
+   iteration order, EVERY run of the relation: fewer than rt_fuel c = 2*|endpoints|+2 deliveries, and no delivery
+   makes an endpoint process the event a second time *)
+Theorem C11_finite_once : forall c links target s lz nord,
   In c rt_chains -> In links (rt_powerset (rt_related_pairs c)) -> target < length c ->
-  In s (flat_map rt_zeps c) ->
-  rt_run_ok c links target s (fun _ => true) = true.
-Proof. intros. apply rt_all_ok_finite_once. apply rt_chains_all_ok; assumption. Qed.
+  In s (flat_map rt_zeps c) -> rt_zone_of c s = Some lz -> rt_nord_ok c nord ->
+  forall k st', rt_sched_run rt_msg (rt_effect c links target nord) (rt_init c links target nord s lz) k st' ->
+    k < rt_fuel c /\
+    (forall np st'', rt_sched_step rt_msg (rt_effect c links target nord) st' np st'' -> rt_fresh np (snd st') = true).
+Proof.
+  intros c links target s lz nord H1 H2 H3 H4 H5 H6 k st' R.
+  destruct (rt_all_ok_relational c links target s lz nord (proj1 (rt_chains_small c H1)) H6 H5
+              (rt_chains_all_ok c links target s H1 H2 H3 H4) k st' R) as [A [_ B]]. split; assumption.
+Qed.
 Print Assumptions C11_finite_once.
 
-(* ... and whenever the originator is in an entitled zone and the connectivity premise of the statement holds
-   over the entitled zones (rt_premise), every endpoint of every entitled zone has processed the event *)
-Theorem C11_complete : forall c links target s lzs,
+(* ... and whenever such a run has nothing in flight any more, the originator is in an entitled zone and the
+   connectivity premise of the statement holds over the entitled zones (rt_premise), every endpoint of every entitled
+   zone has processed the event (rt_final_complete) - exactly once by C11_finite_once *)
+Theorem C11_complete : forall c links target s lz nord,
   In c rt_chains -> In links (rt_powerset (rt_related_pairs c)) -> target < length c ->
-  In s (flat_map rt_zeps c) -> rt_zone_of c s = Some lzs ->
-  rt_run_ok c links target s (rt_final_complete c links target lzs) = true.
+  In s (flat_map rt_zeps c) -> rt_zone_of c s = Some lz -> rt_nord_ok c nord ->
+  forall k st', rt_sched_run rt_msg (rt_effect c links target nord) (rt_init c links target nord s lz) k st' ->
+    fst st' = [] -> rt_final_complete c links target lz (snd st') = true.
 Proof.
-  intros c links target s lzs H1 H2 H3 H4 H5.
-  pose proof (rt_chains_all_ok c links target s H1 H2 H3 H4) as K. unfold rt_all_ok in K. rewrite H5 in K. exact K.
+  intros c links target s lz nord H1 H2 H3 H4 H5 H6 k st' R.
+  destruct (rt_all_ok_relational c links target s lz nord (proj1 (rt_chains_small c H1)) H6 H5
+              (rt_chains_all_ok c links target s H1 H2 H3 H4) k st' R) as [_ [A _]]. assumption.
 Qed.
 Print Assumptions C11_complete.
 
 (* global target: the same chains with a global zone ... *)
-Theorem C11_global_chains : forall c links s,
+Theorem C11_global_chains : forall c links s lz nord,
   In c rt_chains -> In links (rt_powerset (rt_related_pairs (c ++ [rt_gzone]))) ->
-  In s (flat_map rt_zeps (c ++ [rt_gzone])) ->
-  rt_all_ok (c ++ [rt_gzone]) links (length c) s = true.
-Proof. exact rt_chains_global_all_ok. Qed.
+  In s (flat_map rt_zeps (c ++ [rt_gzone])) -> rt_zone_of (c ++ [rt_gzone]) s = Some lz -> rt_nord_ok (c ++ [rt_gzone]) nord ->
+  forall k st', rt_sched_run rt_msg (rt_effect (c ++ [rt_gzone]) links (length c) nord)
+                  (rt_init (c ++ [rt_gzone]) links (length c) nord s lz) k st' ->
+    k < rt_fuel (c ++ [rt_gzone]) /\
+    (fst st' = [] -> rt_final_complete (c ++ [rt_gzone]) links (length c) lz (snd st') = true) /\
+    (forall np st'', rt_sched_step rt_msg (rt_effect (c ++ [rt_gzone]) links (length c) nord) st' np st'' -> rt_fresh np (snd st') = true).
+Proof.
+  intros c links s lz nord H1 H2 H3 H4 H5.
+  exact (rt_all_ok_relational (c ++ [rt_gzone]) links (length c) s lz nord (proj2 (rt_chains_small c H1)) H5 H4
+           (rt_chains_global_all_ok c links s H1 H2 H3)).
+Qed.
 Print Assumptions C11_global_chains.
 
-(* ... and every tree of depth <= 3 with <= 2 children per zone, 1-2 endpoints per zone and at most 9
-   directly related endpoint pairs (the bound that keeps the kernel evaluation at a few minutes) *)
-Theorem C11_global_trees : forall c links s,
-  In c rt_global_trees -> rt_pairs c <= 9 -> In links (rt_powerset (rt_related_pairs c)) ->
-  In s (flat_map rt_zeps c) ->
-  rt_all_ok c links (rt_gtarget c) s = true /\ rt_run_ok c links (rt_gtarget c) s (fun _ => true) = true.
+(* ... and every tree of depth <= 3 with <= 2 children per zone, 1-2 endpoints per zone and at most 12 directly
+   related endpoint pairs (the bound that keeps the kernel evaluation at a few minutes) *)
+Theorem C11_global_trees : forall c links s lz nord,
+  In c rt_global_trees -> rt_pairs c <= 12 -> In links (rt_powerset (rt_related_pairs c)) ->
+  In s (flat_map rt_zeps c) -> rt_zone_of c s = Some lz -> rt_nord_ok c nord ->
+  forall k st', rt_sched_run rt_msg (rt_effect c links (rt_gtarget c) nord) (rt_init c links (rt_gtarget c) nord s lz) k st' ->
+    k < rt_fuel c /\
+    (fst st' = [] -> rt_final_complete c links (rt_gtarget c) lz (snd st') = true) /\
+    (forall np st'', rt_sched_step rt_msg (rt_effect c links (rt_gtarget c) nord) st' np st'' -> rt_fresh np (snd st') = true).
 Proof.
-  intros. assert (rt_all_ok c links (rt_gtarget c) s = true) by (apply rt_global_all_ok; assumption).
-  split; [assumption | apply rt_all_ok_finite_once; assumption].
+  intros c links s lz nord H1 H2 H3 H4 H5 H6.
+  exact (rt_all_ok_relational c links (rt_gtarget c) s lz nord (rt_global_trees_small c H1) H6 H5
+           (rt_global_all_ok c links s H1 H2 H3 H4)).
 Qed.
 Print Assumptions C11_global_trees.
 
